@@ -94,6 +94,19 @@ func (r *ResponseFilterWriter) WriteHeader(code int) {
 	r.statusCodeWritten = true
 }
 
+// Flush implements http.Flusher. Flushing commits the response header,
+// so whether to compress is decided first if it has not been yet.
+func (r *ResponseFilterWriter) Flush() {
+	if !r.statusCodeWritten {
+		r.WriteHeader(http.StatusOK)
+	}
+	if r.shouldCompress {
+		r.gzipResponseWriter.Flush()
+		return
+	}
+	r.gzipResponseWriter.ResponseWriterWrapper.Flush()
+}
+
 // Write wraps underlying Write method and compresses if filters
 // are satisfied
 func (r *ResponseFilterWriter) Write(b []byte) (int, error) {
